@@ -648,6 +648,51 @@ def rule_r6(facts, col, bodies=None):
                 col.bad("C07.R6", key, body.where(bb), "with the error slot filled the code after the join loop can still return Ok", {})
 
 
+def rule_r7(facts, col, bodies=None):
+    """a failing block stops the others: on a block thread, every path from the Err of work() to the thread's return passes
+    CancellationToken::cancel() (directly, or in the closure handed to `inspect_err` on the work result) - the join loop waits
+    for threads in turn, so a thread of an unrelated, endless part of the graph that is joined first is never told to stop
+    unless the failing thread itself raises the flag"""
+    from ..runners import thread_side_paths
+    tsp = thread_side_paths(facts)
+    n = 0
+    for body in (bodies if bodies is not None else runner_bodies(facts)):
+        if body.path not in tsp:
+            continue
+        for ws in work_sites(facts, body):
+            key = "%s:work:err-cancels" % body.q
+            n += 1
+            if not ws.complete():
+                col.silent("C07.R7", key, body.where(ws.wbb), "work() result not matched directly")
+                continue
+            cancels = {bb for bb, t in body.calls_to(CANCEL)}
+            # inspect_err(|e| { ..; cancel_token.cancel(); }) on the work result: runs exactly on Err, before the `?`
+            via_inspect = False
+            for bb, t in body.calls():
+                if (t["f"].get("q") or "").startswith("std::result::Result::") and t["f"].get("name") == "inspect_err" and len(t["args"]) == 2:
+                    if ws._is_work_value(body.operand_expr(t["args"][0])):
+                        for x in walk(body.operand_expr(t["args"][1])):
+                            if x.k == "agg" and x.ak == "closure" and x.q:
+                                cb = facts.by_path.get(x.q)
+                                if cb is not None:
+                                    cc = {b2 for b2, t2 in cb.calls_to(CANCEL)}
+                                    rets = set(cb.return_blocks())
+                                    if cc and not (cb.reachable(0, avoid=cc) & rets):
+                                        via_inspect = True
+            err_t = ws.err_edge[1]
+            r = body.reachable(err_t, avoid=cancels) if err_t not in cancels else set()
+            leaks = [x for x in r if body.term(x)["k"] == "return"]
+            if leaks and not via_inspect:
+                col.bad("C07.R7", key, body.where(err_t),
+                        "a block thread can return the Err of work() without cancelling the token: the other block threads keep "
+                        "running, the join loop waits for them in turn, and with an endless part of the graph that is not connected "
+                        "to the failed block run() never returns the error", {})
+            else:
+                col.ok("C07.R7", key, body.where(err_t), "the failing thread cancels the token before it returns the error")
+    if n == 0:
+        col.ok("C07.R7", "no-thread-side-work-site", "src/mtgraph.rs", "no work() call on a spawned thread")
+
+
 def run(ctx):
     facts = ctx.facts("default")
     rb = runner_bodies(facts)
@@ -659,6 +704,8 @@ def run(ctx):
     rule_r4(facts, ctx, rb)
     rule_r6(facts, ctx, rb)
     ctx.floor("C07.R6", 1, "joined results of MTGraph::run")
+    rule_r7(facts, ctx, rb)
+    ctx.floor("C07.R7", 1, "work() in the MTGraph thread closure")
     rule_r5(facts, ctx)
     ctx.floor("C07.R5", 1, "CancellationToken::cancel stores true")
     from .. import controls
